@@ -40,6 +40,15 @@ def _check_loops_from_task(task: Task, visited_tasks: Set[int], validated: Set[i
     for s in task.predecessors:
         _check_loops_from_task(s, visited_tasks, validated)
 
+    # a summary task is finished by its children, and a task also waits for the predecessors of its parents:
+    # a cycle may be closed through the hierarchy
+    for ch in task.children:
+        _check_loops_from_task(ch, visited_tasks, validated)
+
+    for p in task.all_parents:
+        for s in p.predecessors:
+            _check_loops_from_task(s, visited_tasks, validated)
+
     visited_tasks.remove(task.id)
     validated.add(task.id)
 
